@@ -485,7 +485,7 @@ func runC20(ctx Ctx) int {
 	{
 		cb, cs := 1, 90
 		if ev.Tier() == "thorough" {
-			cb, cs = 2, 1200
+			cb, cs = 2, 180
 		}
 		runConc(run, "C20", cb, cs)
 	}
